@@ -49,3 +49,25 @@ Example C13_history_nonvacuous :
   map fst (run (init "me" 2) ops) = [RNil; RNil; RNil; ROk; RNil; RNotLeader; RNil]
   /\ stores (run_state (init "me" 2) ops) = [(1, [])].
 Proof. vm_compute. split; reflexivity. Qed.
+
+(* gateway side: after any history of server-info answers (any shard counts, any subset of the
+   shards listed, in any order, repeated or failing syncs), every ClientFor call addresses the
+   leader named for the upstream's shard fnv32a(name) mod N by the latest announcement that lists
+   that shard, N being the shard count of the latest announcement; when no announcement ever
+   listed the shard, or none was received, nobody is addressed *)
+Theorem C13_gateway_follows_announcement : forall ops, Forall ann_ok ops ->
+  gw_hist_ok 0 [] (gw_model_hist gw_init ops) = true.
+Proof. exact gw_follows. Qed.
+Print Assumptions C13_gateway_follows_announcement.
+
+Local Open Scope string_scope.
+(* non-vacuity: shard 1 not announced at first (a gap), then announced; the shard count changes *)
+Example C13_gateway_nonvacuous :
+  let ops := [GClientFor "a"; GSync 3 [(0, "s0"); (2, "s2")]; GClientFor "a"; GClientFor "c"; GClientFor "kube-2";
+              GSyncFail; GSync 3 [(1, "s1"); (0, "s9")]; GClientFor "a"; GClientFor "c"; GClientFor "kube-2";
+              GSync 2 [(1, "t1")]; GClientFor "a"; GClientFor "kube-2"] in
+  Forall ann_ok ops /\
+  map (fun u => (shard_id u 3, shard_id u 2)) ["a"; "c"; "kube-2"] = [(Some 1, Some 0); (Some 2, Some 0); (Some 0, Some 1)] /\
+  gw_run gw_init ops = [GErr; GNil; GErr; GTo "s2"; GTo "s0"; GNil; GNil; GTo "s1"; GTo "s2"; GTo "s9";
+                        GNil; GTo "s9"; GTo "t1"].
+Proof. split; [repeat constructor; discriminate|]. vm_compute. split; reflexivity. Qed.
